@@ -107,24 +107,43 @@ where
     let f = Arc::new(f);
     let next = Arc::new(AtomicU64::new(0));
     let results: Arc<Mutex<Vec<(u64, RunOutput)>>> = Arc::new(Mutex::new(Vec::new()));
-    let mut handles = Vec::new();
-    for _ in 0..jobs.min(runs.max(1)) {
+    // runs in progress and when they started (real time): a run whose thread spins without ever
+    // yielding (a wedged runtime) can neither finish nor be cancelled, so it is reported instead
+    let in_progress: Arc<Mutex<std::collections::HashMap<u64, std::time::Instant>>> = Default::default();
+    let wedge_s = a.u64("wedge_s", 300);
+    let done_workers = Arc::new(AtomicU64::new(0));
+    let n_workers = jobs.min(runs.max(1));
+    for _ in 0..n_workers {
         let f = f.clone();
         let next = next.clone();
         let results = results.clone();
-        handles.push(std::thread::spawn(move || loop {
-            let i = next.fetch_add(1, Ordering::SeqCst);
-            if i >= runs {
-                break;
+        let in_progress = in_progress.clone();
+        let done_workers = done_workers.clone();
+        std::thread::spawn(move || {
+            loop {
+                let i = next.fetch_add(1, Ordering::SeqCst);
+                if i >= runs {
+                    break;
+                }
+                let seed = seed0 + i;
+                let f = f.clone();
+                in_progress.lock().unwrap().insert(seed, std::time::Instant::now());
+                let outp = crate::sim::run_sim(seed, move |sim| f(seed, sim));
+                in_progress.lock().unwrap().remove(&seed);
+                results.lock().unwrap().push((seed, outp));
             }
-            let seed = seed0 + i;
-            let f = f.clone();
-            let outp = crate::sim::run_sim(seed, move |sim| f(seed, sim));
-            results.lock().unwrap().push((seed, outp));
-        }));
+            done_workers.fetch_add(1, Ordering::SeqCst);
+        });
     }
-    for h in handles {
-        let _ = h.join();
+    let mut wedged: Vec<u64> = Vec::new();
+    while done_workers.load(Ordering::SeqCst) < n_workers {
+        std::thread::sleep(std::time::Duration::from_millis(50));
+        let stuck: Vec<u64> = in_progress.lock().unwrap().iter()
+            .filter(|(_, t)| t.elapsed().as_secs() >= wedge_s).map(|(s, _)| *s).collect();
+        if !stuck.is_empty() {
+            wedged = stuck;
+            break;
+        }
     }
     let mut results = std::mem::take(&mut *results.lock().unwrap());
     results.sort_by_key(|(s, _)| *s);
@@ -155,6 +174,11 @@ where
         crate::trace::write_ndjson(std::path::Path::new(&path), lines).expect("write trace");
         written.push(path);
     }
-    print_summary(&json!({"scenario": name, "files": written, "runs": summary}));
+    wedged.sort();
+    print_summary(&json!({"scenario": name, "files": written, "runs": summary, "wedged": wedged, "wedge_s": wedge_s}));
+    if !wedged.is_empty() {
+        // the stuck threads cannot be joined
+        std::process::exit(0);
+    }
     0
 }
